@@ -34,6 +34,10 @@ def units(tier):
         for lo in range(0, len(lens), 64):
             yield {"leg": "binnify", "L": L, "nchrom": nchrom, "lo": lo, "hi": min(len(lens), lo + 64)}
     yield {"leg": "binnify-large"}
+    # every width 1..512 (thorough 4096) x lengths m*w-1, m*w, m*w+1 for m in {1,2,7,40}: the ceil(len/width) arithmetic must be exact
+    top = 4096 if tier == "thorough" else 512
+    for lo in range(1, top + 1, 64):
+        yield {"leg": "binnify-widths", "lo": lo, "hi": min(top + 1, lo + 64)}
     tabs = alpha.bin_tables(3, 7 if th else 5)
     for lo in range(0, len(tabs), 128):
         yield {"leg": "infer", "B": 7 if th else 5, "lo": lo, "hi": min(len(tabs), lo + 128)}
@@ -256,6 +260,27 @@ def run(unit, R, tier, only=None):
                     continue
                 R.order = (R.order[0], k)
                 _binnify_one(R, sizes, w, inner)
+    elif leg == "binnify-widths":
+        from cooler import util
+        k = 0
+        for w in range(unit["lo"], unit["hi"]):
+            for m in (1, 2, 7, 40):
+                sizes = tuple(x for x in (m * w - 1, m * w, m * w + 1) if x >= 1)
+                k += 1
+                inner = {"sizes": list(sizes), "w": w}
+                if only is not None and only != inner:
+                    continue
+                R.order = (R.order[0], k)
+                R.cls("binnify-widths")
+                _binnify_one(R, sizes, w, inner)
+                # a binnified table must be reported as fixed-width w (only-if direction: whatever is reported must be true)
+                try:
+                    names = NAMES3[:len(sizes)]
+                    bs = util.get_binsize(util.binnify(pd.Series(list(sizes), index=names, dtype=np.int64), w))
+                    if bs is not None and int(bs) != w and not all(x <= w for x in sizes):
+                        R.mismatch("reported-binsize-false", inner, f"reported {bs}")
+                except Exception as e:
+                    R.mismatch("raises:" + type(e).__name__, inner, f"{e!s:.200}")
     elif leg == "infer":
         tabs = alpha.bin_tables(3, unit["B"])[unit["lo"]:unit["hi"]]
         k = 0
